@@ -127,11 +127,59 @@ class Collector:
             self.cap(c)
 
 
+class Runaway(BaseException):
+    """Raised in a worker by the CPU-time watchdog."""
+
+
+# CPU seconds (ITIMER_PROF: immune to machine load) one pool task may use.  No task of any check
+# needs more than ~100 CPU-s in the quick tier / ~1500 in the thorough tier on the unchanged
+# tree; library code that loops forever on one of the small inputs of a task (seen with seeded
+# comparison-operator changes in dns/btree.py) must end the check with a verdict, not hang it.
+TASK_CPU_BUDGET = {"quick": 400.0, "thorough": 6000.0}
+_ABORT = multiprocessing.get_context("fork").Value("i", 0)
+
+
+def _budget():
+    return float(os.environ.get("VERIF_TASK_CPU_BUDGET", 0)) or TASK_CPU_BUDGET.get(os.environ.get("VERIF_TIER_ACTIVE", "quick"), 400.0)
+
+
+def _on_prof(signum, frame):
+    import signal
+    signal.setitimer(signal.ITIMER_PROF, 0)
+    raise Runaway()
+
+
+def guarded(fn, col, describe):
+    """Run fn() under the CPU watchdog; a runaway is recorded in col (as '__runaway__', turned
+    into a VIOLATION by finish) and makes every later task of the run return at once."""
+    import signal
+    if _ABORT.value:
+        col.count("tasks_skipped_after_runaway")
+        return
+    old = signal.signal(signal.SIGPROF, _on_prof)
+    signal.setitimer(signal.ITIMER_PROF, _budget())
+    try:
+        fn()
+    except Runaway as e:
+        _ABORT.value = 1
+        tb = traceback.extract_tb(e.__traceback__)
+        lib = [f for f in tb if (os.sep + "dns" + os.sep) in f.filename]
+        where = " <- ".join("%s:%d %s" % (os.path.basename(f.filename), f.lineno, f.name) for f in reversed(lib[-4:])) or \
+            " <- ".join("%s:%d %s" % (os.path.basename(f.filename), f.lineno, f.name) for f in reversed(tb[-3:]))
+        col.count("runaway_tasks")
+        col.violations.setdefault("__runaway__", []).append(
+            Violation("__runaway__", "a task used more than %.0f CPU seconds (normal: seconds); interrupted in %s; task %s"
+                      % (_budget(), where, str(jsonable(describe))[:400]), {"mode": "runaway", "task": jsonable(describe)}))
+    finally:
+        signal.setitimer(signal.ITIMER_PROF, 0)
+        signal.signal(signal.SIGPROF, old)
+
+
 def _worker_entry(args):
     fn, task = args
     col = Collector()
     try:
-        fn(task, col)
+        guarded(lambda: fn(task, col), col, task)
     except BaseException as e:  # harness error inside a worker
         col.count("harness_errors")
         col.violations.setdefault("__harness__", []).append(
@@ -210,11 +258,15 @@ def finish(ctx: Context, module) -> int:
             print("HARNESS-ERROR in worker:\n" + v.what, file=sys.stderr)
         rc = 2
     recheck = getattr(module, "recheck", None)
+    runaway = ctx.violations.pop("__runaway__", None)
+    if runaway:
+        # not re-executed (it would run away again); reported as found
+        ctx.violations[ctx.prop + "/runaway-task"] = runaway
     seen_known = set()
     for sig in sorted(ctx.violations):
         vs = ctx.violations[sig]
         v = vs[0]
-        if recheck is not None:
+        if recheck is not None and not sig.endswith("/runaway-task"):
             # deterministic replay: the same case must fail the same way twice
             try:
                 again1 = recheck(unjson(v.case))
